@@ -3,6 +3,7 @@ package main
 import (
 	"bufio"
 	"encoding/hex"
+	"encoding/json"
 	"fmt"
 	"math"
 	"os"
@@ -27,6 +28,11 @@ var numberTexts = []string{
 	"1.00000000000000011102230246251565404236316680908203124", "1.00000000000000011102230246251565404236316680908203126",
 	"0.5", "-2.5", "1234.5678e-2", "100000000000000000000000", "6.02214076e23", "1E400", "1e-400", "12345678901234567890e-5",
 }
+
+// json.Number leaves (a Geometry unmarshalled with Decoder.UseNumber, or built by hand): in range,
+// out of the float64 range, and not numbers at all
+var jsonNumberTexts = []string{"1", "-2.5", "1e300", "-2.5e-300", "0", "-0", "1e400", "-1e999", "6e310", "1.7976931348623159e308",
+	"1" + strings.Repeat("0", 315), "-1" + strings.Repeat("0", 400), "1e-400", "abc", "", "NaN", "Inf", "+Inf", "0x1p-2", "1e", " 1", "1_0"}
 
 var badNumberTexts = []string{"01", "+1", ".5", "1.", "1e", "1e+", "-", "--1", "0x10", "1_000", "NaN", "Infinity", "-Infinity", "1.e5", "00", "1e5.5", "١"}
 
@@ -187,6 +193,9 @@ func junk(r *vproto.Rng, goOnly bool) *jv {
 	case 11:
 		return jgo("i " + strconv.Itoa(r.Range(-3, 3)))
 	case 12:
+		if r.Bool() {
+			return jgo("jn " + strTok(jsonNumberTexts[r.Intn(len(jsonNumberTexts))]))
+		}
 		return jgo("F1 2 " + vproto.F2H(1) + " " + vproto.F2H(2))
 	default:
 		return jgo([]string{"PT " + vproto.F2H(1) + " " + vproto.F2H(2), "F2 1 2 " + vproto.F2H(1) + " " + vproto.F2H(2), "F1 0", "F2 0", "f 7ff8000000000001", "f 7ff0000000000000", "f fff0000000000000"}[r.Intn(7)])
@@ -504,6 +513,43 @@ func genJSON(out *bufio.Writer, r *vproto.Rng, tier string) {
 			"a 1 a 2 a 0 a 0", "a 1 a 1 a 2 a 0 a 0", "a 1 a 1 a 1 a 2 a 0 a 0", "a 1 a 0", "a 1 a 1 a 0", "a 1 a 1 a 1 a 0", "a 1 a 1 a 1 a 1 a 0"} {
 			fmt.Fprintf(out, "gj s%s %s\n", hex.EncodeToString([]byte(typ)), tok)
 		}
+	}
+	// json.Number at every leaf position of every type
+	jn := func(s string) string { return "jn " + strTok(s) }
+	for _, t := range jsonNumberTexts {
+		for _, other := range []string{"f 4000000000000000", jn("2"), jn(t)} {
+			p1, p2 := "a 2 "+jn(t)+" "+other, "a 2 "+other+" "+jn(t)
+			for _, pos := range []string{p1, p2} {
+				fmt.Fprintf(out, "gj s%s %s\n", hex.EncodeToString([]byte("Point")), pos)
+				fmt.Fprintf(out, "gj s%s a 2 a 2 f 3ff0000000000000 f 4000000000000000 %s\n", hex.EncodeToString([]byte("LineString")), pos)
+				fmt.Fprintf(out, "gj s%s a 1 %s\n", hex.EncodeToString([]byte("MultiPoint")), pos)
+				fmt.Fprintf(out, "gj s%s a 1 a 1 %s\n", hex.EncodeToString([]byte("Polygon")), pos)
+				fmt.Fprintf(out, "gj s%s a 2 a 1 %s a 0\n", hex.EncodeToString([]byte("MultiLineString")), pos)
+				fmt.Fprintf(out, "gj s%s a 1 a 1 a 1 %s\n", hex.EncodeToString([]byte("MultiPolygon")), pos)
+			}
+		}
+	}
+	// generated documents read by a REAL json.Decoder with UseNumber: Coordinates holds json.Number everywhere
+	for i := 0; i < 300*scale; i++ {
+		typ := geoTypes[r.Intn(6)]
+		c := coords(geoDepth[typ], r, true)
+		if r.Intn(3) != 0 {
+			c = mutate(c, r, false)
+		}
+		var sb strings.Builder
+		jobj("type", jstr(typ), "coordinates", c).render(&sb, r)
+		var gv struct {
+			Type        string      `json:"type"`
+			Coordinates interface{} `json:"coordinates"`
+		}
+		dec := json.NewDecoder(strings.NewReader(sb.String()))
+		dec.UseNumber()
+		if err := dec.Decode(&gv); err != nil {
+			continue
+		}
+		var tb strings.Builder
+		valToks(&tb, gv.Coordinates)
+		fmt.Fprintf(out, "gj s%s%s\n", hex.EncodeToString([]byte(gv.Type)), tb.String())
 	}
 	for i := 0; i < 500*scale; i++ {
 		typ := geoTypes[r.Intn(6)]
